@@ -391,8 +391,10 @@ happened, `reply` = the ConversionReview result). `none` = the property holds:
 * the runs serve declared rules, in chain order starting at the source version `a`;
 * each run receives the previous output; no run after a failed one;
 * `Success` only if there was a run, every run succeeded, the objects are the last output, there are as
-  many as requested, and the chain was walked to the desired version (or the last output already
-  consists of objects of exactly the desired apiVersion — the early exit of the handler);
+  many as requested, the chain was walked to the desired version (or the last output already
+  consists of objects of exactly the desired apiVersion — the early exit of the handler), and every
+  returned object, one by one, is at the desired apiVersion (a step that hands back `null`, `{}`, an
+  object without apiVersion or an object left at an older version in any position has not succeeded);
 * when the failing run gave its own message, `Failed` carries that message. -/
 def applyCheck (rules : List Rule) (desired : Ver) (objs : List Obj) (script : Script)
     (inv : List Invocation) (reply : Reply) : Option String :=
@@ -415,6 +417,8 @@ def applyCheck (rules : List Rule) (desired : Ver) (objs : List Obj) (script : S
             else if robjs.length ≠ objs.length then some "success-with-a-wrong-number-of-objects"
             else if !(versionsMatched (endOf a walk) desired) && extractVersions out ≠ [desired] then
               some "success-before-the-chain-reached-the-desired-version"
+            else if !(robjs.all (fun o => o.ver == desired)) then
+              some "success-though-a-returned-object-is-not-at-the-desired-version"
             else none
       | .failed m =>
         match lastOutcome script 0 inv with
